@@ -26,6 +26,90 @@ fn is_rounded_quotient(n: i64, d: i64, q: i64) -> bool {
     sign_ok && 2 * aq * ad + ad > 2 * an && 2 * aq * ad <= 2 * an + ad
 }
 
+/// Recording stub for `Fixed::mul_div` (assume-guarantee). C15's E2 queries prove, at full
+/// width, that the real `mul_div` returns the exact quotient s*a/b rounded half away from zero
+/// (saturating for b == 0). The C11 harnesses that are about *how mul_div is used* replace it by
+/// an uninterpreted function: the stub records its arguments and returns a fresh symbolic value;
+/// the harness then asserts that the caller passed exactly the operands the spec formula names
+/// and used the returned value unchanged. No divider (which CBMC cannot bit-blast in time) and no
+/// multiplier is left in the query. On native replay the real mul_div runs instead.
+#[cfg(kani)]
+pub static mut MUL_DIV_CALLS: [(i32, i32, i32, i32); 2] = [(0, 0, 0, 0); 2];
+#[cfg(kani)]
+pub static mut MUL_DIV_N: usize = 0;
+
+#[cfg(kani)]
+pub fn mul_div_spec(s: &Fixed, a: Fixed, b: Fixed) -> Fixed {
+    let q: i32 = kani::any();
+    unsafe {
+        if MUL_DIV_N < 2 {
+            MUL_DIV_CALLS[MUL_DIV_N] = (s.to_bits(), a.to_bits(), b.to_bits(), q);
+        }
+        MUL_DIV_N += 1;
+    }
+    Fixed::from_bits(q)
+}
+
+/// `r == s.mul_div(a, b)` with mul_div uninterpreted (Kani) / real (native replay)
+fn is_mul_div_of(call: usize, r: i32, s: i32, a: i32, b: i32) -> bool {
+    #[cfg(kani)]
+    unsafe {
+        let (cs, ca, cb, q) = MUL_DIV_CALLS[call];
+        return MUL_DIV_N > call && cs == s && ca == a && cb == b && r == q;
+    }
+    #[cfg(not(kani))]
+    {
+        let _ = call;
+        r == Fixed::from_bits(s).mul_div(Fixed::from_bits(a), Fixed::from_bits(b)).to_bits()
+    }
+}
+
+#[cfg(kani)]
+pub static mut DIV_CALLS: [(i32, i32, i32); 2] = [(0, 0, 0); 2];
+#[cfg(kani)]
+pub static mut DIV_N: usize = 0;
+
+/// recording stub for `<Fixed as Div>::div` (same assume-guarantee argument as mul_div_spec)
+#[cfg(kani)]
+pub fn div_spec(a: Fixed, b: Fixed) -> Fixed {
+    let q: i32 = kani::any();
+    // the one consequence of the proven spec the callers rely on: when the exact quotient is
+    // representable its sign is the product of the operand signs (shifts and compares only)
+    let (ua, ub) = (a.to_bits().unsigned_abs() as u128, b.to_bits().unsigned_abs() as u128);
+    if ub != 0 && (ua << 17) + ub < (ub << 32) {
+        kani::assume(q == 0 || ((q < 0) == ((a.to_bits() < 0) != (b.to_bits() < 0))));
+    }
+    unsafe {
+        if DIV_N < 2 {
+            DIV_CALLS[DIV_N] = (a.to_bits(), b.to_bits(), q);
+        }
+        DIV_N += 1;
+    }
+    Fixed::from_bits(q)
+}
+
+fn is_div_of(call: usize, r: i32, a: i32, b: i32) -> bool {
+    #[cfg(kani)]
+    unsafe {
+        let (ca, cb, q) = DIV_CALLS[call];
+        return DIV_N > call && ca == a && cb == b && r == q;
+    }
+    #[cfg(not(kani))]
+    {
+        let _ = call;
+        r == (Fixed::from_bits(a) / Fixed::from_bits(b)).to_bits()
+    }
+}
+
+fn mul_div_calls() -> usize {
+    #[cfg(kani)]
+    unsafe {
+        return MUL_DIV_N;
+    }
+    #[cfg(not(kani))]
+    0
+}
+
 // @bound normalize for ALL (min, default, max, value) in i32^4: never panics (any axis record a font can hold, any user value), result within [-1, 1], default maps to 0
 // @c20
 // @c01
@@ -42,50 +126,46 @@ pub fn c11_normalize_total_and_clamped() {
     kani::cover!(min > max, "malformed axis");
 }
 
-// @bound normalize on the slice |min|,|default|,|max|,|value| < 2^13 raw bits with min<=default<=max: min->-1, max->+1, exact rounded quotient in between, monotone in value
-// @timeout 900
+// @bound normalize for ALL (min, default, max, value) in i32^4 with min <= default <= max: the result is clamp(+-(|value' - default| / |bound - default|)) with value' = clamp(value, min, max), i.e. exactly one division with exactly those operands; min -> -1, default -> 0, max -> +1
+// @assume `Fixed / Fixed` is an uninterpreted function in this query (recording stub); that the real Div is the exact rounded quotient is decided at full width by the E2 queries of C15
 #[cfg_attr(kani, kani::proof)]
-pub fn c11_normalize_matches_spec_slice() {
+#[cfg_attr(kani, kani::stub(<font_types::Fixed as core::ops::Div>::div, div_spec))]
+pub fn c11_normalize_matches_spec() {
     let (min, def, max, v): (i32, i32, i32, i32) = (kani::any(), kani::any(), kani::any(), kani::any());
-    kani::assume(min.unsigned_abs() < 1 << 13 && def.unsigned_abs() < 1 << 13 && max.unsigned_abs() < 1 << 13 && v.unsigned_abs() < 1 << 13);
     kani::assume(min <= def && def <= max);
     let a = axis(min, def, max);
     let r = a.normalize(Fixed::from_bits(v)).to_bits();
-    if min < def {
-        assert!(a.normalize(Fixed::from_bits(min)).to_bits() == -0x10000);
-    }
-    if def < max {
-        assert!(a.normalize(Fixed::from_bits(max)).to_bits() == 0x10000);
-    }
     let c = v.clamp(min, max);
-    if c < def {
-        assert!(is_rounded_quotient(((c - def) as i64) << 16, (def - min) as i64, r as i64));
-    } else if c > def {
-        assert!(is_rounded_quotient(((c - def) as i64) << 16, (max - def) as i64, r as i64));
-    } else {
+    let sat_sub = |x: i32, y: i32| x.saturating_sub(y);
+    if c == def {
         assert!(r == 0);
+    } else if c < def {
+        // -((default - value) / (default - min)), then clamped to [-1, 1]
+        #[cfg(kani)]
+        let q = unsafe { DIV_CALLS[0].2 };
+        #[cfg(not(kani))]
+        let q = (Fixed::from_bits(sat_sub(def, c)) / Fixed::from_bits(sat_sub(def, min))).to_bits();
+        assert!(is_div_of(0, q, sat_sub(def, c), sat_sub(def, min)));
+        if q != i32::MIN {
+            assert!(r == (-q).clamp(-0x10000, 0x10000));
+        }
+    } else {
+        #[cfg(kani)]
+        let q = unsafe { DIV_CALLS[0].2 };
+        #[cfg(not(kani))]
+        let q = (Fixed::from_bits(sat_sub(c, def)) / Fixed::from_bits(sat_sub(max, def))).to_bits();
+        assert!(is_div_of(0, q, sat_sub(c, def), sat_sub(max, def)));
+        assert!(r == q.clamp(-0x10000, 0x10000));
     }
-    kani::cover!(c < def && r != -0x10000, "interior below default");
+    kani::cover!(c < def, "below default");
+    kani::cover!(c > def, "above default");
 }
 
-// @bound normalize monotone: v1 <= v2 => normalize(v1) <= normalize(v2), on the slice |.| < 2^11
+// @bound SegmentMaps::apply with <= 3 symbolic maps (14 bytes), strictly ascending `from`, |coord| < 4.0: exact at map points, identity before the first point and after the last, inside a segment = prev_to + mul_div(to - prev_to, coord - prev_from, from - prev_from); unwind 5
+// @assume Fixed::mul_div is an uninterpreted function in this query (recording stub); that the real mul_div is the exact rounded quotient is decided at full width by the E2 queries of C15
 // @timeout 900
 #[cfg_attr(kani, kani::proof)]
-pub fn c11_normalize_monotone_slice() {
-    let (min, def, max, v1, v2): (i32, i32, i32, i32, i32) = (kani::any(), kani::any(), kani::any(), kani::any(), kani::any());
-    kani::assume(min.unsigned_abs() < 1 << 11 && def.unsigned_abs() < 1 << 11 && max.unsigned_abs() < 1 << 11);
-    kani::assume(v1.unsigned_abs() < 1 << 11 && v2.unsigned_abs() < 1 << 11);
-    kani::assume(min <= def && def <= max && v1 <= v2);
-    let a = axis(min, def, max);
-    assert!(a.normalize(Fixed::from_bits(v1)) <= a.normalize(Fixed::from_bits(v2)));
-    kani::cover!(v1 < def && v2 > def, "straddles default");
-}
-
-// @bound SegmentMaps::apply with <= 3 symbolic maps (14 bytes), strictly ascending `from`, |coord| < 4.0: exact at map points, identity before the first point and after the last, linear (exact rounded quotient) inside a segment; unwind 5
-// @c20
-// @c01
-// @timeout 900
-#[cfg_attr(kani, kani::proof)]
+#[cfg_attr(kani, kani::stub(font_types::Fixed::mul_div, mul_div_spec))]
 #[cfg_attr(kani, kani::unwind(5))]
 pub fn c11_segment_maps_apply_matches_spec() {
     let buf: [u8; 14] = kani::any();
@@ -117,15 +197,14 @@ pub fn c11_segment_maps_apply_matches_spec() {
             assert!(r == to(i));
         }
         if i > 0 && c > from(i - 1) && c < from(i) {
-            let q = r as i64 - to(i - 1) as i64;
-            assert!(is_rounded_quotient(
-                (to(i) - to(i - 1)) as i64 * (c - from(i - 1)) as i64,
-                (from(i) - from(i - 1)) as i64,
-                q
+            // result = prev_to + (to - prev_to).mul_div(coord - prev_from, from - prev_from)
+            assert!(is_mul_div_of(
+                0,
+                r.wrapping_sub(to(i - 1)),
+                to(i) - to(i - 1),
+                c - from(i - 1),
+                from(i) - from(i - 1)
             ));
-            // between the neighbouring `to` values
-            let (lo, hi) = (to(i - 1).min(to(i)), to(i - 1).max(to(i)));
-            assert!(r >= lo && r <= hi);
             kani::cover!(true, "interior of a segment");
         }
         i += 1;
@@ -147,9 +226,10 @@ pub fn c11_segment_maps_apply_total() {
 }
 
 // @bound VariationRegion (1 axis, 6 symbolic bytes) scalar at any F2Dot14 coordinate vs the spec tent function (exact rounded quotient)
-// @c20
-// @c01
+// @assume Fixed::mul_div is an uninterpreted function in this query (recording stub, see mul_div_spec)
+// @timeout 900
 #[cfg_attr(kani, kani::proof)]
+#[cfg_attr(kani, kani::stub(font_types::Fixed::mul_div, mul_div_spec))]
 #[cfg_attr(kani, kani::unwind(4))]
 pub fn c11_region_scalar_matches_spec_1axis() {
     let buf: [u8; 6] = kani::any();
@@ -173,11 +253,9 @@ pub fn c11_region_scalar_matches_spec_1axis() {
     } else if c == p {
         assert!(r == 0x10000);
     } else if c < p {
-        assert!(is_rounded_quotient(0x10000 * (c - s), p - s, r));
-        assert!(r >= 0 && r <= 0x10000);
+        assert!(is_mul_div_of(0, r as i32, 0x10000, (c - s) as i32, (p - s) as i32));
     } else {
-        assert!(is_rounded_quotient(0x10000 * (e - c), e - p, r));
-        assert!(r >= 0 && r <= 0x10000);
+        assert!(is_mul_div_of(0, r as i32, 0x10000, (e - c) as i32, (e - p) as i32));
     }
     kani::cover!(c > s && c < p, "rising edge");
     kani::cover!(c > p && c < e, "falling edge");
